@@ -134,7 +134,7 @@ fn count_alloc_calls(prog: &Program) -> usize {
 /// two-phase sequences: handles inside the closures are recorded during a real prove / verify
 fn case_two_phase<G: CurveTag>(bytes: &[u8], col: &mut Collector) -> Result<(), Failure> {
     let mut ch = Choices::new(bytes);
-    let cfg = GenCfg { max_ops1: 12, max_closures: 3, max_ops2: 10, max_commits: 3, big_gates: 0 , max_terms: 4, wide: false};
+    let cfg = GenCfg { max_ops1: 12, max_closures: 3, max_ops2: 10, max_commits: 3, big_gates: 0, max_terms: 4, wide: false };
     let missing_sel = (ch.chance(70), ch.byte());
     let prog = gen_program(&mut ch, G::CURVE, &cfg);
     let pj = || json!({"program": prog.to_json()});
